@@ -267,7 +267,7 @@ fn check_tree_inner(ex: &mut Exec, col: u8, k: usize) {
 	let ColModel::Tree(m) = &ex.cur[col as usize] else { return };
 	let m = m.clone();
 	let expect = m.roots.get(&key).cloned();
-	let all_logged = ex.pipeline_counts().0 == 0;
+	let all_logged = ex.pipeline_counts().0 == 0 && !ex.commit_lost_in_failed_step;
 	let locked = ex.tree_rt.get(col as usize).map_or(false, |r| r.locks.contains_key(&k));
 	let tree = match ex.db().get_tree(col, &key) {
 		Ok(t) => t,
